@@ -65,6 +65,7 @@ type transFunc struct {
 	fields  map[string]fieldSpec   // receiver field → GoMini field
 	types   map[string]string      // Go type text → static type (named types of zap and the std lib)
 	consts  map[string]string      // named constants: Go text → integer literal (decimal) or "bool:true"
+	inout   []string               // pointer parameters the function mutates: their final values are returned after the declared results
 	recvAs  *fieldSpec             // the receiver VALUE itself (a slice type such as multiWriteSyncer) as a field
 	structs map[string][]fieldSpec // struct types passed by value: static type "struct:<name>" is a list of these fields
 	calls   map[string]shim        // "<static type or package>.<Name>" → meaning
@@ -90,7 +91,7 @@ func isUnsigned(t string) bool { return t == "u8" || t == "u32" || t == "u64" }
 
 var goBasic = map[string]string{
 	"int": "int", "int64": "i64", "int8": "i8", "int32": "i32", "uint8": "u8", "byte": "u8", "uint32": "u32", "uint64": "u64",
-	"bool": "bool", "string": "string", "error": "error",
+	"bool": "bool", "string": "string", "error": "error", "rune": "i32",
 }
 
 // ---------------------------------------------------------------- translator state
@@ -111,6 +112,7 @@ type xl struct {
 	results []string // result types
 	legend  []string
 	loops   []string
+	inouts  []tvar               // in-out parameters, in the order of fn.inout
 	subst   map[*ast.CallExpr]tx // calls hoisted out of an if-condition
 	stmts_  int
 }
@@ -149,8 +151,41 @@ func (x *xl) declare(n ast.Node, name, typ string) tvar {
 }
 
 // goType maps a Go type expression to a static type.
+// transTypeText renders a type expression as the key the whitelist entries use (function types included).
+func transTypeText(e ast.Expr) string {
+	ft, ok := e.(*ast.FuncType)
+	if !ok {
+		return exprString(e)
+	}
+	list := func(fl *ast.FieldList) []string {
+		var out []string
+		if fl == nil {
+			return out
+		}
+		for _, f := range fl.List {
+			n := len(f.Names)
+			if n == 0 {
+				n = 1
+			}
+			for i := 0; i < n; i++ {
+				out = append(out, transTypeText(f.Type))
+			}
+		}
+		return out
+	}
+	s := "func(" + strings.Join(list(ft.Params), ", ") + ")"
+	switch rs := list(ft.Results); len(rs) {
+	case 0:
+	case 1:
+		s += " " + rs[0]
+	default:
+		s += " (" + strings.Join(rs, ", ") + ")"
+	}
+	return s
+}
+
 func (x *xl) goType(e ast.Expr) string {
-	txt := exprString(e)
+	txt := transTypeText(e)
 	if t, ok := x.fn.types[txt]; ok {
 		return t
 	}
@@ -248,6 +283,9 @@ func (x *xl) namedConst(n ast.Node, txt string) (tx, bool) {
 	if s, ok := x.fn.consts[txt]; ok {
 		if strings.HasPrefix(s, "bool:") {
 			return tx{typ: "untyped", val: constant.MakeBool(s == "bool:true")}, true
+		}
+		if strings.HasPrefix(s, "str:") {
+			return tx{typ: "untyped", val: constant.MakeString(s[4:])}, true
 		}
 		if i := strings.Index(s, ":"); i > 0 { // typed constant "u8:128"
 			v := intConst(s[i+1:])
@@ -384,6 +422,9 @@ func (x *xl) expr(e ast.Expr) tx {
 		return r
 	case *ast.IndexExpr:
 		a, i := x.expr(t.X), x.expr(t.Index)
+		if a.typ == "untyped" {
+			a = x.defaulted(t.X, a)
+		}
 		i = x.asIndex(t.Index, i)
 		switch {
 		case a.typ == "string" || a.typ == "bytes":
@@ -416,9 +457,14 @@ func (x *xl) expr(e ast.Expr) tx {
 // by Go without a conversion; the subset insists on int to keep one meaning).
 func (x *xl) asIndex(n ast.Node, i tx) tx {
 	i = x.defaulted(n, i)
-	if i.typ != "int" {
-		x.fail(n, "index of type %s (the subset wants int)", i.typ)
+	if i.typ == "int" {
+		return i
 	}
+	if isUnsigned(i.typ) && i.typ != "u64" {
+		// Go accepts an index of any integer type; a uint8/uint32 value is the same number as an int
+		return tx{lean: "(.conv .int " + i.lean + ")", typ: "int"}
+	}
+	x.fail(n, "index of type %s (the subset wants int or a narrower unsigned type)", i.typ)
 	return i
 }
 
@@ -605,6 +651,37 @@ func (x *xl) callExpr(c *ast.CallExpr) (tx, bool) {
 		}
 		if _, isSel := c.Fun.(*ast.SelectorExpr); isSel {
 			return x.conversion(c, t), false
+		}
+	}
+	// a function-typed local (parameter): its static type names the shim
+	if id, ok := c.Fun.(*ast.Ident); ok {
+		if v, isVar := x.lookup(id.Name); isVar {
+			sh, ok := x.fn.calls[v.typ+"()"]
+			if !ok {
+				x.fail(c, "call of the function value %s (key %q) is not in the whitelist entry of %s", id.Name, v.typ+"()", x.fn.name)
+			}
+			var args []string
+			for _, a := range c.Args {
+				args = append(args, x.defaulted(a, x.expr(a)).lean)
+			}
+			switch sh.kind {
+			case "mutarg0": // statement  args[0] = f(args…)   (args[0] must be assignable: e.g. appendTo(buf, x))
+				if len(c.Args) == 0 {
+					x.fail(c, "shim mutarg0 without arguments")
+				}
+				lv, _ := x.lvalue(c.Args[0])
+				pendingCall = &tcall{ctor: "mut", targetLV: lv, value: "(.call " + leanStr(sh.f) + " [" + strings.Join(args, ", ") + "])"}
+				return tx{}, true
+			case "extstmt":
+				pendingCall = &tcall{ctor: "callX", f: sh.f, args: args, res: sh.res}
+				return tx{}, true
+			case "ext", "builtin":
+				if len(sh.res) != 1 {
+					x.fail(c, "shim %s needs one result type", v.typ+"()")
+				}
+				return tx{lean: "(.call " + leanStr(sh.f) + " [" + strings.Join(args, ", ") + "])", typ: sh.res[0]}, false
+			}
+			x.fail(c, "shim kind %q is not applicable to a function value", sh.kind)
 		}
 	}
 	// method or package call
@@ -1340,6 +1417,12 @@ func (x *xl) decl(t *ast.DeclStmt) string {
 }
 
 func (x *xl) ret(t *ast.ReturnStmt) string {
+	if len(x.inouts) > 0 {
+		if len(x.results) != 0 {
+			x.fail(t, "in-out parameters are supported for functions without declared results only")
+		}
+		return "(.ret [" + x.inoutVals() + "])"
+	}
 	if len(t.Results) == 0 {
 		var rs []string
 		for _, n := range x.named {
@@ -1475,6 +1558,14 @@ func (x *xl) rangeStmt(t *ast.RangeStmt) string {
 	return x.namedLoop("(.range " + k + " " + v + " " + xs.lean + "\n  " + indent(body, 2) + ")")
 }
 
+func (x *xl) inoutVals() string {
+	var rs []string
+	for _, v := range x.inouts {
+		rs = append(rs, "(.loc "+leanStr(v.lean)+")")
+	}
+	return strings.Join(rs, ", ")
+}
+
 // namedLoop emits a loop as its own definition `<fn>_loop<k>` (numbered in source order of their ends): symbolic
 // execution stops at the name, and the loop lemma of the proof is stated about it.
 func (x *xl) namedLoop(term string) string {
@@ -1500,7 +1591,13 @@ func (x *xl) function() (lean string, err error) {
 		x.fail(fd, "no body")
 	}
 	if fd.Type.TypeParams != nil {
-		x.fail(fd, "generic functions are outside the subset")
+		for _, tp := range fd.Type.TypeParams.List {
+			for _, n := range tp.Names {
+				if _, ok := x.fn.types[n.Name]; !ok {
+					x.fail(fd, "type parameter %s: generic functions are translated at ONE instance, which the whitelist entry must name", n.Name)
+				}
+			}
+		}
 	}
 	x.push()
 	if fd.Recv != nil && len(fd.Recv.List) == 1 && len(fd.Recv.List[0].Names) == 1 {
@@ -1552,7 +1649,18 @@ func (x *xl) function() (lean string, err error) {
 			x.fail(fd, "mixed named and unnamed results")
 		}
 	}
+	for _, n := range x.fn.inout {
+		v, ok := x.scopes[0][n]
+		if !ok {
+			x.fail(fd, "in-out parameter %s not found", n)
+		}
+		x.inouts = append(x.inouts, v)
+		x.legend = append(x.legend, v.lean+" is in-out: its final value is returned")
+	}
 	body := x.scoped(fd.Body)
+	if len(x.inouts) > 0 {
+		body = block([]string{body, "(.ret [" + x.inoutVals() + "])"})
+	}
 	var sb strings.Builder
 	recv := ""
 	if x.fn.recv != "" {
